@@ -343,7 +343,10 @@ func (g *gen) unit(family string, test bool, build func() string) int {
 	u := &Unit{ID: len(g.units), Family: family, Test: test}
 	g.units = append(g.units, Unit{}) // reserve the slot
 	g.stack = append(g.stack, u)
+	saveScope := g.sc
+	g.sc = nil // a unit is a top-level declaration: nothing of an enclosing body is visible in it
 	u.Text = build()
+	g.sc = saveScope
 	g.stack = g.stack[:len(g.stack)-1]
 	sort.Ints(u.Deps)
 	g.units[u.ID] = *u
